@@ -17,7 +17,8 @@ import numpy as np
 
 from ..contracts import attach, detach_all, quiet
 from ..core import REPO, max_err
-from ..polyhard import cfg32, clear_caches, warm32, layouts, stack_layouts, is_c_contig, contig, coef_containers
+from ..polyhard import (cfg32, clear_caches, warm32, layouts, stack_layouts, is_c_contig, contig, coef_containers, foreign_traffic,
+                        term_containers, PARAM_FORMS, INT_PARAM_FORMS)
 from ..util import precision
 
 RULE = ('one case = one coefficient set (class: dense / sparse single term at each position / length 1 / cosine-only / '
@@ -32,7 +33,15 @@ RULE = ('one case = one coefficient set (class: dense / sparse single term at ea
         'arguments must be left intact) x containers (+ float32 ndarray at single-precision tolerance, integer ndarray) x memory layouts (lstsq and '
         'sum_of_2d_modes with Fortran / transposed / strided / windowed data and mode stacks, lists of such arrays, weights as list / tuple / strided / '
         'float32 / int; evaluators with non-C-contiguous coordinates) x config.precision = 32 x caller-provided alphas= work arrays x sums of 19, 41, 60 '
-        '(thorough: to 150) coefficients, dense and sparse; lstsq / sum_of_2d_modes repeated on the same objects incl. 16x1, 2x40, 1x24 shapes')
+        '(thorough: to 150) coefficients, dense and sparse; lstsq / sum_of_2d_modes repeated on the same objects incl. 16x1, 2x40, 1x24 shapes. Hardening pass 2: class A for every array '
+        'argument of lstsq / sum_of_2d_modes / sum_of_2d_modes_backprop - ONE mode-stack object (C / Fortran ndarray, flattened (k, N), view of a larger array, list) fitted with none / one / '
+        'few / just below size//16 / size//16 / many non-finite samples and then re-used for synthesis, a second fit and the backprop, each judged against the PRISTINE stack, argument '
+        'snapshots intact; class D - sums of 172, 173, 257, 401 coefficients in the quick tier (2D-Q paths to 201: implementation limit); class E - forms the current tree accepts as '
+        'the same input (tables in vp/polyhard.py and the contracts): weights bool / uint8 / int32 / int64 / float32 / range / tuple / numpy scalars, mode stacks list / tuple / float32 / '
+        'complex128 / integer (lstsq), data int64 / int32 / float32 / masked array, non-integer data with integer mode stacks; alpha, beta as numpy float64 / float32 / python int / numpy '
+        'int64 and the STANDING parameter lines alpha + beta = -1 and = 0 with alpha != beta; the coordinate as python float / python int / numpy float64 / 0-d; m of clenshaw_q2d as numpy '
+        'integers; alphas=None explicit vs omitted vs an explicit work array; Q2d_nm_c_to_a_b with every container form of both arguments; class F - every fast path and the fit judged '
+        'after unmonitored traffic through the shared tables from the other routines of the library')
 ASSUMPTIONS = ['the single-mode routines (jacobi, Qbfs, Qcon, Q2d, zernike_nm) define the modes (their values are C07)',
                'float64 accumulation of <= 40 terms is exact to 1e-13 relative to sum |c_k| sup|mode_k|',
                'numpy.linalg (qr, solve, matrix_rank, cond) is the trusted base for the least-squares oracle',
@@ -40,17 +49,26 @@ ASSUMPTIONS = ['the single-mode routines (jacobi, Qbfs, Qcon, Q2d, zernike_nm) d
                'recurrences: 1e-13 at 41 terms, 5e-12 at 150); float32 data / coefficients or config.precision = 32: 1e-3 (sums of <= 12 '
                'terms, observed 1e-6), 2e-4 for sum_of_2d_modes and lstsq; 1e-8 * cond * |c| for fits',
                'caller-provided work arrays (alphas=) are zero-initialised with the documented shape, as _initialize_alphas makes them',
-               'a coefficient vector may be any sequence of real numbers (list, tuple, ndarray of a floating or integer dtype, numpy scalars)']
+               'a coefficient vector may be any sequence of real numbers (list, tuple, ndarray of a floating or integer dtype, numpy scalars)',
+               'argument forms (class E): the accepted forms are DATA established on /repo @ faa8443: integer mode stacks in sum_of_2d_modes (weights are cast to the mode dtype), complex weights '
+               'with real modes, generators as weights / mode stacks, list data in lstsq, integer ndarray coordinates of the Clenshaw routines and evaluators, python int coordinates of the Q '
+               'evaluators, 2D-Q sums of more than 201 radial coefficients (RecursionError of the memoised f/g tables when cold) are out of domain: excluded and counted']
 REQUIRED = ['alias.arguments-intact', 'alias.result-stable', 'sum_of_2d_modes', 'jacobi_sum_clenshaw', 'clenshaw_qbfs', 'compute_z_zprime_Qbfs.sag',
             'compute_z_zprime_Qcon.sag', 'compute_z_zprime_Q2d.sag', 'Q2d_nm_c_to_a_b.structure',
             'Q2d_nm_c_to_a_b->compute_z_zprime_Q2d', 'lstsq.solution', 'lstsq.recovers-synthesis',
-            'lstsq.ignores-exactly-nonfinite', 'pvr.consumer']
+            'lstsq.ignores-exactly-nonfinite', 'pvr.consumer',
+            'classA.array-arguments-reused', 'classD.very-high-orders', 'classE.argument-forms', 'classF.foreign-traffic']
 
 CTX = None
 RTOL = 1e-10
 RTOL32 = 1e-3        # single-precision class (float32 data / coefficients or config.precision = 32), sums of <= 12 terms: observed <= 1e-6
 HISTORY = [None]     # class label of the history the workload is in (set by the history units), for mechanism keys
+FORM = [None]        # 'form:<argument>=<form>' label of the argument-form class the workload is driving (class E), appended to contract keys
 ORIG = {}
+
+
+def formkey(key):
+    return key + ('/' + FORM[0] if FORM[0] else '')
 
 
 def lowp(*objs):
@@ -174,6 +192,20 @@ def compare(monitor, got, ref, scale, key, what, desc, rtol=RTOL, recheck=None, 
     return CTX.close(monitor, got, ref, key, what, desc, rtol=rtol, atol=1e-300, scale=scale, **detail)
 
 
+def compare_form(monitor, got, ref, scale, base_key, form, canonical, what, desc, rtol=RTOL):
+    """Class E comparison: the result for an accepted argument form against the oracle.  On a failure the canonical form of the same input is
+    evaluated quietly: right -> the defect is specific to the form (key <base>/form:<argument>=<form>), wrong too -> the form-independent key."""
+    key = base_key
+    if form and not ok_close(got, ref, scale, rtol):
+        try:
+            with quiet(), np.errstate(all='ignore'):
+                if ok_close(canonical(), ref, scale, rtol):
+                    key = base_key + '/form:' + form
+        except Exception:  # noqa
+            pass
+    return compare(monitor, got, ref, scale, key, what, desc, rtol=rtol)
+
+
 def ok_close(got, ref, scale, rtol=RTOL):
     g, r = np.asarray(got), np.asarray(ref)
     return g.shape == r.shape and max_err(g, r) <= 1e-300 + rtol * scale
@@ -192,7 +224,11 @@ def post_sum_of_2d_modes(token, args, kwargs, result):
         w = np.asarray(weights)
     except Exception:
         return
-    if M.dtype.kind not in 'fc' or w.dtype.kind not in 'fciu' or M.ndim < 2 or w.ndim != 1 or w.shape[0] != M.shape[0]:
+    # argument forms accepted today (polyhard class E table): floating / complex mode stacks; weights of any real kind (bool, signed and
+    # unsigned integers, floats), complex weights only with complex modes (weights are cast to the mode dtype: integer mode stacks truncate
+    # real weights and real mode stacks drop the imaginary part of complex weights - out of domain)
+    if M.dtype.kind not in 'fc' or w.dtype.kind not in 'fciub' or M.ndim < 2 or w.ndim != 1 or w.shape[0] != M.shape[0] \
+            or (w.dtype.kind == 'c' and M.dtype.kind != 'c'):
         CTX.skip('sum_of_2d_modes:outside-stated-domain(dtype/shape)')
         return
     if not (np.all(np.isfinite(w))):
@@ -201,15 +237,15 @@ def post_sum_of_2d_modes(token, args, kwargs, result):
     acc = np.zeros(M.shape[1:], dtype=complex if M.dtype.kind == 'c' or w.dtype.kind == 'c' else float)
     scale = 0.0
     for k in range(M.shape[0]):
-        acc = acc + w[k] * M[k].astype(acc.dtype)
-        scale += abs(w[k]) * sup(M[k])
+        acc = acc + (float(w[k]) if w.dtype.kind in 'iub' else w[k]) * M[k].astype(acc.dtype)
+        scale += abs(float(w[k]) if w.dtype.kind in 'iub' else w[k]) * sup(M[k])
     desc = {'fn': 'sum_of_2d_modes', 'k': int(M.shape[0]), 'shape': list(M.shape[1:]), 'dtype': str(M.dtype),
             'class': f'sum_of_2d_modes:{"k=1" if M.shape[0] == 1 else "k>=2"}:{M.dtype}'}
     def recheck(tr):
         m2 = modes if tr is None else ([tr(np.asarray(v)) for v in modes] if isinstance(modes, (list, tuple)) else tr(np.asarray(modes)))
         w2 = weights if tr is None else (tr(weights) if isinstance(weights, np.ndarray) else weights)
         return ok_close(ORIG['sum_of_2d_modes'](m2, w2), acc, scale, 2e-4 if f32 else RTOL)
-    compare('sum_of_2d_modes', result, acc, scale, 'C10/sum_of_2d_modes' + ('/f32' if f32 else ''),
+    compare('sum_of_2d_modes', result, acc, scale, formkey('C10/sum_of_2d_modes' + ('/f32' if f32 else '')),
             'sum_of_2d_modes != explicit sum of weight*mode', desc, rtol=2e-4 if f32 else RTOL, recheck=recheck, arrays=[modes, weights])
 
 
@@ -239,7 +275,8 @@ def post_lstsq(token, args, kwargs, result):
         d = np.asarray(data)
     except Exception:
         return
-    if M.dtype.kind != 'f' or d.dtype.kind != 'f' or M.ndim < 2 or M.shape[1:] != d.shape:
+    # argument forms accepted today (class E table): floating or integer mode stacks (ndarray, list, tuple), floating or integer data ndarray
+    if M.dtype.kind not in 'fiu' or d.dtype.kind not in 'fiu' or not isinstance(data, np.ndarray) or M.ndim < 2 or M.shape[1:] != d.shape:
         CTX.skip('lstsq:outside-stated-domain(dtype/shape)')
         return
     if not np.all(np.isfinite(M)):
@@ -259,7 +296,7 @@ def post_lstsq(token, args, kwargs, result):
     # residual-aware scale: perturbation theory for LS adds cond^2 * |r|/|A||c|; keep noisy fits modest in cond
     r = A @ c - b
     extra = (cond ** 2) * 1e-13 * (np.linalg.norm(r) / max(np.linalg.norm(A, 2), 1e-300))
-    key = 'C10/lstsq/solution' + ('/f32' if f32 else '')
+    key = formkey('C10/lstsq/solution' + ('/f32' if f32 else ''))
     tol = extra + 1e-300 + rt * max(sup(c), 1e-300)
     got = np.asarray(result)
     if got.shape == c.shape and not max_err(got, c) <= tol:
@@ -320,7 +357,8 @@ def coef_sets(rng, nmax, quick):
 def run_jacobi(ctx, counter):
     from prysm.polynomials import jacobi, jacobi_sum_clenshaw
     nmax = ctx.pick(12, 60)
-    params = [(-0.5, -0.5), (0.5, 0.5), (-0.5, 0.5), (0.5, -0.5), (0, 0), (0, 4), (0.3, -0.3), (-0.3, -0.7), 'rand', 'rand'] + ['rand'] * ctx.pick(0, 30)
+    params = [(-0.5, -0.5), (0.5, 0.5), (-0.5, 0.5), (0.5, -0.5), (0, 0), (0, 4), (0.3, -0.3), (-0.3, -0.7), (-0.25, -0.75), (-0.875, -0.125), (0.75, -0.75),
+              'rand', 'rand'] + ['rand'] * ctx.pick(0, 30)      # incl. the standing lines alpha + beta = -1 and = 0 with alpha != beta
     for pi, par in enumerate(params):
         rng0 = case_rng('jac-sets', pi)
         for si, (sl, s) in enumerate(coef_sets(rng0, nmax, ctx.quick)):
@@ -710,6 +748,7 @@ def paths():
         'jacobi_sum_clenshaw(0.25,-0.25)': (lambda c, u: jacobi_sum_clenshaw(c, 0.25, -0.25, 2 * u - 1), lambda k, u: jacobi(k, 0.25, -0.25, 2 * u - 1), 'jacobi'),
         'jacobi_sum_clenshaw(0.25,0.75)': (lambda c, u: jacobi_sum_clenshaw(c, 0.25, 0.75, 2 * u - 1), lambda k, u: jacobi(k, 0.25, 0.75, 2 * u - 1), 'jacobi'),
         'jacobi_sum_clenshaw(0,4)': (lambda c, u: jacobi_sum_clenshaw(c, 0, 4, x=2 * u - 1), lambda k, u: jacobi(k, 0, 4, 2 * u - 1), 'jacobi'),
+        'jacobi_sum_clenshaw(-0.25,-0.75)': (lambda c, u: jacobi_sum_clenshaw(c, -0.25, -0.75, 2 * u - 1), lambda k, u: jacobi(k, -0.25, -0.75, 2 * u - 1), 'jacobi'),   # alpha + beta = -1, alpha != beta
         'clenshaw_qbfs': (lambda c, u: clenshaw_qbfs(c, u * u), lambda k, u: Qbfs(k, u), 'm=0'),
         'compute_z_zprime_Qbfs': (lambda c, u: compute_z_zprime_Qbfs(c, u, u * u)[0], lambda k, u: Qbfs(k, u), 'm=0'),
         'compute_z_zprime_Qcon': (lambda c, u: compute_z_zprime_Qcon(c, u, u * u)[0], lambda k, u: Qcon(k, u), 'jacobi'),
@@ -1030,6 +1069,379 @@ def repeat_lstsq(ctx):
                         'lstsq / sum_of_2d_modes modified the mode stack or the data array it was given', desc)
 
 
+# ------------------------------------------------------------------------------------------ hardening pass 2 (HARDENING2.md E, F; A for the array arguments)
+BAD_CLASSES = ('none', 'one', 'few', 'few:just-below-size//16', 'size//16', 'many')
+
+
+def bad_mask(rng, shape, cls):
+    """Mask of non-finite samples of a class: none / exactly one / few (2-3) / just below 1/16 of the samples / exactly size//16 / ~20 %."""
+    n = int(np.prod(shape))
+    k = {'none': 0, 'one': 1, 'few': min(3, max(2, n // 16 - 1)), 'few:just-below-size//16': max(1, n // 16 - 1), 'size//16': max(1, n // 16), 'many': max(2, n // 5)}[cls]
+    m = np.zeros(n, bool)
+    if k:
+        m[rng.choice(n, size=k, replace=False)] = True
+    return m.reshape(shape)
+
+
+def alias_modes(ctx):
+    """Class A for every array argument of lstsq / sum_of_2d_modes / sum_of_2d_modes_backprop: ONE mode-stack object (float64 C ndarray,
+    Fortran ndarray, flattened (k, N) ndarray with 1-D data, view into a larger array, list of arrays) is fitted with none / one / few / many
+    non-finite samples and then re-used: the later synthesis, fit and backprop with the same object are judged against the PRISTINE stack
+    (snapshot taken before the first call), and the argument snapshots must be intact."""
+    from prysm import polynomials as P
+    rng = case_rng('alias-modes')
+    fills = [np.nan, np.inf, -np.inf]
+    shapes = (((12, 12), 'zernike'), ((8, 9), 'legendre-xy'), ((16, 17), 'q2d'), ((1, 64), 'legendre-xy'), ((40, 2), 'single'), ((9, 8), 'zernike'))
+    shapes += ctx.pick((), (((33, 32), 'zernike'), ((24, 17), 'q2d'), ((64, 65), 'legendre-xy'), ((3, 200), 'legendre-xy'), ((128, 4), 'single'), ((21, 21), 'zernike'), ((16, 16), 'legendre-xy'), ((10, 7), 'q2d')))
+    for shape, kind in shapes:
+        with quiet():
+            base = np.asarray(basis(rng, kind, shape), dtype=float)
+        k = base.shape[0]
+        forms = [('ndarray-C', lambda: base.copy(), False), ('ndarray-F', lambda: np.asfortranarray(base).copy(order='F'), False),
+                 ('ndarray-flat(k,N)', lambda: base.reshape(k, -1).copy(), True),
+                 ('view-of-larger-array', lambda: np.concatenate([base, base[:1]])[:k], False), ('list-of-arrays', lambda: [m.copy() for m in base], False)]
+        for fi, (fl, mk, flat) in enumerate(forms):
+            for bi, bc in enumerate(BAD_CLASSES):
+                if ctx.quick and (fi + bi) % 2 and fl not in ('ndarray-C', 'ndarray-flat(k,N)'):
+                    continue
+                modes = mk()
+                m0 = np.array(modes, dtype=float, copy=True)              # pristine values
+                c = rng.normal(size=k)
+                w = c.copy()
+                synth = np.tensordot(c, m0, axes=(0, 0))
+                mask = bad_mask(rng, synth.shape, bc)
+                data = synth.copy()
+                data[mask] = np.array(fills)[rng.integers(0, 3, synth.shape)][mask]
+                d0 = data.copy()
+                desc = {'fn': 'lstsq', 'basis': kind, 'shape': list(shape), 'modes_as': fl, 'bad': bc, 'nbad': int(mask.sum()), 'class': f'lstsq:shared-modes:{fl}:{bc}'}
+                ctx.case(desc)
+                ctx.observe('classA.array-arguments-reused')
+                cref, ok, cond, A, b = ls_oracle(m0, data)
+                if not ok or cond > 1e6:
+                    ctx.skip('lstsq:rank-deficient-or-ill-conditioned-on-valid-samples')
+                    continue
+                sc = float(np.sum(np.abs(c) * np.abs(m0.reshape(k, -1)).max(axis=1)))
+
+                def later(lab):
+                    """the later calls with the SAME objects, judged against the pristine stack; one key per class of the fit that preceded them"""
+                    key = f'C10/lstsq/modes-reused-after-fit/bad-samples:{lab.split(":")[0]}'
+                    got = P.sum_of_2d_modes(modes, w)
+                    compare('sum_of_2d_modes', got, synth, sc, key, 'sum_of_2d_modes(basis, c) after lstsq(basis, data) with the same basis object != explicit sum over the basis the caller built', desc)
+                    if not flat:           # the adjoint is documented for stacks of 2-D modes (tensordot over the two trailing axes)
+                        bar = rng.normal(size=synth.shape)
+                        b0 = bar.copy()
+                        gb = P.sum_of_2d_modes_backprop(modes, bar)
+                        rb = np.array([float(np.sum(m0[i] * b0)) for i in range(k)])
+                        compare('sum_of_2d_modes', gb, rb, float(np.sum(np.abs(m0).reshape(k, -1) * np.abs(b0).reshape(1, -1), axis=1).max()), key,
+                                'sum_of_2d_modes_backprop(basis, databar) with the re-used basis object != <mode_k, databar> over the basis the caller built', desc)
+                        ctx.require('alias.arguments-intact', np.array_equal(bar, b0), 'C10/arguments-modified/sum_of_2d_modes_backprop/databar',
+                                    'sum_of_2d_modes_backprop modified the array of upstream gradients the caller passed', desc)
+                        got = P.sum_of_2d_modes(modes, w)
+                        compare('sum_of_2d_modes', got, synth, sc, 'C10/sum_of_2d_modes/modes-reused-after-backprop', 'sum_of_2d_modes(basis, c) after sum_of_2d_modes_backprop with the same objects != explicit sum', desc)
+                    ctx.require('alias.arguments-intact', np.array_equal(np.asarray(modes, dtype=float), m0), f'C10/arguments-modified/lstsq/modes/bad-samples:{lab.split(":")[0]}',
+                                'lstsq (or the synthesis / backprop that followed) modified the mode stack the caller passed', desc)
+                with guard('lstsq', desc, 'masked' if mask.any() else 'all-finite'):
+                    chat = P.lstsq(modes, data)
+                    ctx.close('lstsq.recovers-synthesis', chat, c, f'C10/lstsq/recovers-synthesis/bad-samples:{bc.split(":")[0]}', 'lstsq(modes, sum c_k mode_k with non-finite samples) != c',
+                              desc, rtol=1e-8 * max(cond, 1.0), atol=1e-300, scale=sup(c))
+                    later(bc)
+                    if not np.array_equal(np.asarray(modes, dtype=float), m0):
+                        continue            # reported; a second history on an already modified stack adds nothing
+                    bc2 = BAD_CLASSES[(bi + 2) % len(BAD_CLASSES)]
+                    mask2 = bad_mask(rng, synth.shape, bc2)
+                    d2 = synth.copy()
+                    d2[mask2] = np.nan
+                    c2ref, ok2, cond2, _, _ = ls_oracle(m0, d2)
+                    chat2 = P.lstsq(modes, d2)
+                    if ok2 and cond2 <= 1e6:
+                        ctx.close('lstsq.recovers-synthesis', chat2, c, f'C10/lstsq/recovers-synthesis/bad-samples:{bc2.split(":")[0]}',
+                                  'a second fit with the same basis object (other samples missing) != c', desc, rtol=1e-8 * max(cond2, 1.0), atol=1e-300, scale=sup(c))
+                    else:
+                        ctx.skip('lstsq:rank-deficient-or-ill-conditioned-on-valid-samples')
+                    later(bc2)
+                    ctx.require('alias.arguments-intact', np.array_equal(data, d0, equal_nan=True) and np.array_equal(w, c) and np.array_equal(d2[~mask2], synth[~mask2]),
+                                'C10/arguments-modified/lstsq/data-or-weights', 'lstsq / sum_of_2d_modes modified the data array or the weight vector the caller passed', desc)
+
+
+def int_basis(shape):
+    ny, nx = shape
+    X, Y = np.meshgrid(np.arange(nx) - nx // 2, np.arange(ny) - ny // 2)
+    return np.array([np.ones_like(X), X, Y, X * Y, X * X - 2 * Y, Y * Y + X])
+
+
+def form_units(ctx):
+    """Class E for sum_of_2d_modes / lstsq / sum_of_2d_modes_backprop: dtype kinds and containers the current tree accepts as the same input
+    (see the class E table in vp/polyhard.py and the contracts' domain tests): weights bool / uint8 / int32 / int64 / float32 / range / tuple /
+    numpy scalars; mode stacks list / tuple / float32 / complex128; data int64 / int32 (integer-valued) and masked arrays; integer mode stacks
+    for lstsq.  The contracts judge every call against the explicit sum / the least-squares oracle; the key carries form:<argument>=<form>."""
+    from prysm import polynomials as P
+    rng = case_rng('forms')
+    try:
+        for shape in ((6, 7), (5, 5), (1, 12)):
+            Mi = int_basis(shape)
+            k = Mi.shape[0]
+            M = Mi.astype(float)
+            wi = rng.integers(-3, 4, size=k)
+            wi[0] = 2
+            wforms = [('bool', np.array([True, False, True, True, False, True])), ('uint8', np.abs(wi).astype(np.uint8)), ('int32', wi.astype(np.int32)), ('int64', wi.astype(np.int64)),
+                      ('float32', wi.astype(np.float32) / 4), ('range', range(1, k + 1)), ('tuple-of-ints', tuple(int(v) for v in wi)), ('list-of-numpy-floats', [np.float64(v) / 8 for v in wi]),
+                      ('list-of-bools', [bool(v % 2) for v in wi])]
+            for wl, w in wforms:
+                for ml, mo in (('ndarray-f64', M), ('tuple', tuple(M)), ('list', list(M)), ('complex128', M * (1 + 0.5j)), ('float32', M.astype(np.float32))):
+                    FORM[0] = f'form:weights={wl}' if ml == 'ndarray-f64' else f'form:modes={ml}'
+                    desc = {'fn': 'sum_of_2d_modes', 'shape': list(shape), 'weights_as': wl, 'modes_as': ml, 'class': f'sum_of_2d_modes:form:weights={wl}:modes={ml}'}
+                    ctx.case(desc)
+                    ctx.observe('classE.argument-forms')
+                    with guard('sum_of_2d_modes', desc, FORM[0]):
+                        P.sum_of_2d_modes(mo, w)
+            FORM[0] = 'form:weights=complex128'
+            desc = {'fn': 'sum_of_2d_modes', 'shape': list(shape), 'weights_as': 'complex128', 'modes_as': 'complex128', 'class': 'sum_of_2d_modes:form:weights=complex128:modes=complex128'}
+            ctx.case(desc)
+            with guard('sum_of_2d_modes', desc, FORM[0]):
+                P.sum_of_2d_modes(M * (1 - 0.25j), wi * (0.5 + 1j))
+            # lstsq: integer-valued synthesis (exact in every dtype)
+            c = wi.astype(float)
+            di = np.tensordot(wi, Mi, axes=(0, 0))
+            for dl, d in (('int64', di.astype(np.int64)), ('int32', di.astype(np.int32)), ('float64', di.astype(float)), ('float32', di.astype(np.float32)),
+                          ('masked-array', np.ma.masked_invalid(np.where(rng.random(shape) < 0.1, np.nan, di.astype(float))))):
+                for ml, mo in (('ndarray-f64', M), ('ndarray-int64', Mi.astype(np.int64)), ('ndarray-int32', Mi.astype(np.int32)), ('tuple', tuple(M)), ('list-of-int-arrays', list(Mi)),
+                               ('float32', M.astype(np.float32))):
+                    FORM[0] = f'form:data={dl}' if ml == 'ndarray-f64' else f'form:modes={ml}'
+                    desc = {'fn': 'lstsq', 'shape': list(shape), 'data_as': dl, 'modes_as': ml, 'class': f'lstsq:form:data={dl}:modes={ml}'}
+                    ctx.case(desc)
+                    cref, ok, cond, A, b = ls_oracle(M, np.asarray(d, dtype=float))
+                    if not ok or cond > 1e6:
+                        ctx.skip('lstsq:rank-deficient-or-ill-conditioned-on-valid-samples')
+                        continue
+                    with guard('lstsq', desc, FORM[0]):
+                        chat = P.lstsq(mo, d)
+                        f32 = 'float32' in (dl, ml)
+                        ctx.close('lstsq.recovers-synthesis', chat, c, f'C10/lstsq/recovers-synthesis/{FORM[0]}', 'lstsq(modes, data) != c for an accepted dtype / container form of the same values',
+                                  desc, rtol=(2e-4 if f32 else 1e-8) * max(cond, 1.0), atol=1e-300, scale=sup(c))
+            # integer mode stacks with data that are NOT integer-valued (non-integer coefficients), and with a few non-finite samples
+            cf = wi.astype(float) + np.array([0.25, -0.5, 0.125, 0.75, -0.375, 0.5])[:k]
+            df = np.tensordot(cf, M, axes=(0, 0))
+            dn = df.copy()
+            dn.flat[[1, df.size // 2]] = [np.nan, np.inf]
+            for dl, d in (('float64-noninteger', df), ('float64-noninteger+nan', dn)):
+                for ml, mo in (('ndarray-int64', Mi.astype(np.int64)), ('ndarray-int32', Mi.astype(np.int32)), ('list-of-int-arrays', list(Mi))):
+                    FORM[0] = f'form:modes={ml}'
+                    desc = {'fn': 'lstsq', 'shape': list(shape), 'data_as': dl, 'modes_as': ml, 'class': f'lstsq:form:data={dl}:modes={ml}'}
+                    ctx.case(desc)
+                    cref, ok, cond, A, b = ls_oracle(M, d)
+                    if not ok or cond > 1e6:
+                        ctx.skip('lstsq:rank-deficient-or-ill-conditioned-on-valid-samples')
+                        continue
+                    with guard('lstsq', desc, FORM[0]):
+                        ctx.close('lstsq.recovers-synthesis', P.lstsq(mo, d), cf, f'C10/lstsq/recovers-synthesis/{FORM[0]}', 'lstsq(integer-typed modes, float data) != c', desc,
+                                  rtol=1e-8 * max(cond, 1.0), atol=1e-300, scale=sup(cf))
+            FORM[0] = 'form:databar=int64'
+            desc = {'fn': 'sum_of_2d_modes_backprop', 'shape': list(shape), 'class': 'sum_of_2d_modes_backprop:form'}
+            ctx.case(desc)
+            with guard('sum_of_2d_modes_backprop', desc, FORM[0]):
+                for ml, mo in (('ndarray-f64', M), ('list', list(M)), ('ndarray-int64', Mi)):
+                    for dl, d in (('float64', di.astype(float)), ('int64', di)):
+                        got = P.sum_of_2d_modes_backprop(mo, d)
+                        ref = np.array([float(np.sum(M[i] * di)) for i in range(k)])
+                        compare('sum_of_2d_modes', got, ref, sup(ref), f'C10/sum_of_2d_modes_backprop/form:modes={ml}:databar={dl}', 'sum_of_2d_modes_backprop != <mode_k, databar>', desc)
+    finally:
+        FORM[0] = None
+
+
+JAC_LINES = [(-0.25, -0.75), (-0.75, -0.25), (-0.125, -0.875), (-0.5, -0.5), (0.75, -0.75), (-0.75, 0.75), (-0.25, 0.25), (0.25, -0.25)]
+
+
+def pline(al, be):
+    s = float(al) + float(be)
+    return ('a+b=-1' if s == -1 else 'a+b=0' if s == 0 else 'general') + (':a!=b' if float(al) != float(be) else ':a=b')
+
+
+def param_form_units(ctx):
+    """Class E for the Clenshaw sums: the standing parameter lines alpha + beta = -1 and = 0 with alpha != beta (the n = 0 special case of the
+    recurrence coefficients), shape parameters as python float / numpy float64 / numpy float32 (single-precision class) / python int / numpy
+    int64, the coordinate as python float / python int / numpy float64 scalar / 0-d array, m of clenshaw_q2d as numpy integers, keyword
+    alphas=None explicit vs omitted, Q2d_nm_c_to_a_b with every container form of both arguments."""
+    from prysm.polynomials import jacobi, jacobi_sum_clenshaw, Qbfs, Q2d
+    from prysm.polynomials.qpoly import clenshaw_qbfs, clenshaw_q2d, compute_z_zprime_Qbfs, compute_z_zprime_Qcon, compute_z_zprime_Q2d, Q2d_nm_c_to_a_b
+    rng = case_rng('param-forms')
+    x = np.array([-1.0, -0.5625, 0.0625, 0.71875, 1.0])
+    for al, be in JAC_LINES:
+        for L in (1, 2, 3, 6, 19):
+            c0 = [float(v) for v in rng.normal(size=L)]
+            for fl, mk, exact in PARAM_FORMS:
+                desc = {'fn': 'jacobi_sum_clenshaw', 'alpha': al, 'beta': be, 'line': pline(al, be), 'len': L, 'params_as': fl, 'class': f'jacobi_sum_clenshaw:{pline(al, be)}:params-as-{fl}'}
+                ctx.case(desc)
+                f32 = not exact
+                if f32 and L > 12:
+                    continue
+                with guard('jacobi_sum_clenshaw', desc, lenclass(L), [lenclass(L)]):
+                    got = jacobi_sum_clenshaw(c0 if L % 2 else np.array(c0), mk(al), mk(be), x)
+                    with quiet():
+                        ref, scale = explicit_sum(c0, lambda k: jacobi(k, al, be, x))
+                    compare_form('jacobi_sum_clenshaw', got, ref, scale, f'C10/jacobi_sum_clenshaw/{lenclass(L)}' + ('/f32' if f32 else ''), '' if fl == 'pyfloat' else f'alpha,beta={fl}',
+                                 lambda: jacobi_sum_clenshaw(c0, float(al), float(be), x), f'jacobi_sum_clenshaw != explicit sum of s_n * jacobi(n) on the parameter line {pline(al, be)}',
+                                 desc, rtol=RTOL32 if f32 else RTOL)
+    for al, be in ((0, 4), (1, 0), (0, 0), (2, 1)):
+        c0 = [float(v) for v in rng.normal(size=6)]
+        for fl, mk, exact in INT_PARAM_FORMS + PARAM_FORMS[1:]:
+            desc = {'fn': 'jacobi_sum_clenshaw', 'alpha': al, 'beta': be, 'params_as': fl, 'class': f'jacobi_sum_clenshaw:integer-parameters:params-as-{fl}'}
+            ctx.case(desc)
+            with guard('jacobi_sum_clenshaw', desc, 'len>=2'):
+                got = jacobi_sum_clenshaw(c0, mk(al), mk(be), x)
+                with quiet():
+                    ref, scale = explicit_sum(c0, lambda k: jacobi(k, float(al), float(be), x))
+                compare_form('jacobi_sum_clenshaw', got, ref, scale, 'C10/jacobi_sum_clenshaw/len>=2' + ('' if exact else '/f32'), f'alpha,beta={fl}',
+                             lambda: jacobi_sum_clenshaw(c0, float(al), float(be), x), 'jacobi_sum_clenshaw != explicit sum for integer-valued parameters', desc, rtol=RTOL if exact else RTOL32)
+    # coordinate forms of the Clenshaw routines and evaluators: python float / python int / numpy float64 scalar / 0-d array
+    PT = paths()
+    for xl, u in (('pyfloat', 0.40625), ('pyint:1', 1), ('pyint:0', 0), ('npfloat64', np.float64(0.71875)), ('0d', np.array(0.21875))):
+        for L in (1, 4, 9):
+            c0 = [float(v) for v in rng.normal(size=L)]
+            uf = np.asarray(float(u))
+            desc = {'fn': 'jacobi_sum_clenshaw', 'len': L, 'x_as': xl, 'class': f'jacobi_sum_clenshaw:x-as-{xl}'}
+            ctx.case(desc)
+            with guard('jacobi_sum_clenshaw', desc, lenclass(L), [lenclass(L)]):
+                got = jacobi_sum_clenshaw(c0, -0.25, -0.75, 2 * u - 1)
+                with quiet():
+                    ref, scale = explicit_sum(c0, lambda k: jacobi(k, -0.25, -0.75, 2 * uf - 1))
+                compare_form('jacobi_sum_clenshaw', np.asarray(got), ref, scale, f'C10/jacobi_sum_clenshaw/{lenclass(L)}', f'x={xl.split(":")[0]}',
+                             lambda: jacobi_sum_clenshaw(c0, -0.25, -0.75, np.array([2 * float(u) - 1]))[0], 'jacobi_sum_clenshaw != explicit sum for a scalar coordinate', desc)
+            if xl.startswith('pyint'):
+                continue            # the Q evaluators allocate their work arrays from the coordinate: python int coordinates are out of domain there (class E table)
+            desc = {'fn': 'clenshaw_qbfs', 'len': L, 'x_as': xl, 'class': f'clenshaw_qbfs:x-as-{xl}'}
+            ctx.case(desc)
+            with guard('clenshaw_qbfs', desc, lenclass(L), [lenclass(L)]):
+                got = clenshaw_qbfs(c0, u * u)
+                with quiet():
+                    ref, scale = explicit_sum(c0, lambda k: Qbfs(k, uf))
+                ua = np.array([float(u)])
+                compare_form('clenshaw_qbfs', np.asarray(got), ref, scale, f'C10/clenshaw_qbfs/{lenclass(L)}', f'usq={xl}', lambda: clenshaw_qbfs(c0, ua * ua)[0],
+                             'clenshaw_qbfs != explicit sum for a scalar coordinate', desc)
+                got = compute_z_zprime_Qbfs(c0, u, u * u)[0]
+                compare_form('compute_z_zprime_Qbfs.sag', np.asarray(got), ref, scale, f'C10/compute_z_zprime_Qbfs/{lenclass(L)}', f'u={xl}', lambda: compute_z_zprime_Qbfs(c0, ua, ua * ua)[0][0],
+                             'compute_z_zprime_Qbfs sag != explicit sum for a scalar coordinate', desc)
+                got = compute_z_zprime_Qcon(c0, u, u * u)[0]
+                with quiet():
+                    ref, scale = explicit_sum(c0, lambda k: PT['compute_z_zprime_Qcon'][1](k, uf))
+                compare_form('compute_z_zprime_Qcon.sag', np.asarray(got), ref, scale, f'C10/compute_z_zprime_Qcon/{lenclass(L)}', f'u={xl}', lambda: compute_z_zprime_Qcon(c0, ua, ua * ua)[0][0],
+                             'compute_z_zprime_Qcon sag != explicit sum for a scalar coordinate', desc)
+    # m of clenshaw_q2d as numpy integers; alphas=None explicit
+    u = np.array([0.0, 0.21875, 0.53125, 0.84375, 1.0])
+    for L in (1, 4, 9):
+        c0 = [float(v) for v in rng.normal(size=L)]
+        for ml, mk in (('int64', np.int64), ('int32', np.int32), ('uint32', np.uint32), ('intp', np.intp)):
+            for m in (1, 2, 5):
+                desc = {'fn': 'clenshaw_q2d', 'len': L, 'm': m, 'm_as': ml, 'class': f'clenshaw_q2d:m-as-{ml}'}
+                ctx.case(desc)
+                with guard('clenshaw_q2d', desc, lenclass(L), ['list-len1'] if L == 1 else []):
+                    al = clenshaw_q2d(c0, mk(m), u * u, alphas=None)
+                    S = 0.5 * al[0]
+                    if m == 1 and L > 3:
+                        S = S - 2 / 5 * al[3]
+                    with quiet():
+                        ref, scale = explicit_sum(c0, lambda k: Q2d(k, m, u, np.zeros(u.shape)))
+                    def canon(m=m):
+                        a2 = clenshaw_q2d(c0, m, u * u)
+                        return (0.5 * a2[0] - (2 / 5 * a2[3] if (m == 1 and L > 3) else 0)) * u ** m
+                    compare_form('compute_z_zprime_Q2d.sag', S * u ** m, ref, scale, f'C10/clenshaw_q2d/{lenclass(L)}', f'm={ml}', canon, 'clenshaw_q2d(m as a numpy integer) != explicit sum', desc)
+        desc = {'fn': 'jacobi_sum_clenshaw', 'len': L, 'kw': 'alphas=None', 'class': 'jacobi_sum_clenshaw:alphas=None-explicit'}
+        ctx.case(desc)
+        with guard('jacobi_sum_clenshaw', desc, lenclass(L), [lenclass(L)]):
+            a_ = jacobi_sum_clenshaw(c0, 0.25, -0.25, 2 * u - 1, alphas=np.zeros((L, 5)))       # an explicit work array first,
+            b_ = jacobi_sum_clenshaw(c0, 0.25, -0.25, 2 * u - 1, alphas=None)                    # then the documented default explicitly,
+            c_ = jacobi_sum_clenshaw(c0, 0.25, -0.25, 2 * u - 1)                                 # then omitted
+            with quiet():
+                ref, scale = explicit_sum(c0, lambda k: jacobi(k, 0.25, -0.25, 2 * u - 1))
+            for lab, g in (('explicit-array', a_), ('None', b_), ('omitted', c_)):
+                compare('jacobi_sum_clenshaw', g, ref, scale, f'C10/jacobi_sum_clenshaw/alphas=/{lenclass(L)}', f'jacobi_sum_clenshaw(alphas {lab}) != explicit sum', desc)
+            q1 = clenshaw_qbfs(c0, u * u, alphas=np.zeros((L, 5)))
+            q2 = clenshaw_qbfs(c0, u * u, alphas=None)
+            q3 = clenshaw_qbfs(c0, u * u)
+            with quiet():
+                ref, scale = explicit_sum(c0, lambda k: Qbfs(k, u))
+            for lab, g in (('explicit-array', q1), ('None', q2), ('omitted', q3)):
+                compare('clenshaw_qbfs', g, ref, scale, f'C10/clenshaw_qbfs/alphas=/{lenclass(L)}', f'clenshaw_qbfs(alphas {lab}) != explicit sum', desc)
+    # the coefficient re-packing helper with every container form of both arguments
+    nms = [(0, 0), (2, 0), (0, 1), (1, 1), (0, -1), (2, -1), (0, 2), (1, -2), (0, -2)]
+    cf = [float(v) for v in rng.normal(size=len(nms))]
+    exp = expected_packing(nms, cf)
+    tt = rng.uniform(0, 6.28, 5)
+    with quiet():
+        tot, scale = None, 0.0
+        for (n, m), cc in zip(nms, cf):
+            md = np.asarray(Q2d(n, m, u, tt), dtype=float)
+            tot = cc * md if tot is None else tot + cc * md
+            scale += abs(cc) * sup(md)
+    conts = term_containers(nms) + [('generator', None)]
+    for tl, tc in conts:
+        for cl, cm in (('list', lambda: list(cf)), ('ndarray-f64', lambda: np.array(cf)), ('tuple', lambda: tuple(cf)), ('generator', lambda: (v for v in cf))):
+            desc = {'fn': 'Q2d_nm_c_to_a_b', 'terms_as': tl, 'coefs_as': cl, 'class': f'Q2d_nm_c_to_a_b:terms-as-{tl}:coefs-as-{cl}'}
+            ctx.case(desc)
+            with guard('Q2d_nm_c_to_a_b', desc, 'regular'):
+                packed = Q2d_nm_c_to_a_b((e for e in nms) if tl == 'generator' else tc, cm())
+                ok = ([float(v) for v in packed[0]] == exp[0] and [[float(q) for q in v] for v in packed[1]] == exp[1] and [[float(q) for q in v] for v in packed[2]] == exp[2])
+                ctx.require('Q2d_nm_c_to_a_b.structure', ok, f'C10/Q2d_nm_c_to_a_b/structure/form:nms={tl}:coefs={cl}',
+                            'Q2d_nm_c_to_a_b does not return the documented dense per-m lists for an accepted container form', desc)
+                z = compute_z_zprime_Q2d(packed[0], packed[1], packed[2], u, tt)[0]
+                compare('Q2d_nm_c_to_a_b->compute_z_zprime_Q2d', z, tot, scale, f'C10/compute_z_zprime_Q2d/regular/form:nms={tl}:coefs={cl}',
+                        'compute_z_zprime_Q2d(*Q2d_nm_c_to_a_b(...)) != explicit sum of c * Q2d(n, m)', desc)
+
+
+def very_long_units(ctx, L):
+    """Class D in the quick tier too: sums whose highest order is at / beyond 171 (where n! leaves double precision)."""
+    rng = case_rng('very-long', L)
+    PT = paths()
+    u = np.array([0.0, 0.21875, 0.84375, 1.0])
+    c0 = [float(v) for v in rng.normal(size=L)]
+    sp = [0.0] * L
+    sp[-1] = 1.5
+    sp[171 if L > 172 else L // 2] = -0.75
+    heavy = L > 260
+    for label, (fast, mode, az) in PT.items():
+        if L > 201 and fn_of(label) in ('compute_z_zprime_Q2d', 'clenshaw_q2d') and label != 'compute_z_zprime_Q2d:cm0':
+            # implementation limit of the current tree, not a numerical one: change_of_basis_Q2d_to_Pnm reads f_q2d / g_q2d (mutually recursive memoised
+            # functions) from the TOP order down, so ~250 radial coefficients exceed the interpreter's recursion limit while the tables are cold
+            ctx.skip('2D-Q fast sums of > 201 radial coefficients (RecursionError of the memoised f/g tables when cold: implementation limit, excluded and counted)')
+            continue
+        if heavy and label not in ('jacobi_sum_clenshaw(0.25,-0.25)', 'jacobi_sum_clenshaw(-0.25,-0.75)', 'clenshaw_qbfs', 'compute_z_zprime_Qcon', 'compute_z_zprime_Q2d:a1', 'clenshaw_q2d:m=2'):
+            continue
+        for cl, cc in (('dense', c0), ('sparse', sp)):
+            if heavy and cl == 'sparse':
+                continue
+            desc = {'fn': fn_of(label), 'path': label, 'len': L, 'coefs': cl, 'class': f'{fn_of(label)}:very-long-sum:{cl}'}
+            ctx.case(desc)
+            ctx.observe('classD.very-high-orders')
+            path_check(ctx, label, fast, mode, np.array(cc) if L % 2 else cc, cc, u, u, desc, lenclass(L))
+
+
+def foreign_units(ctx):
+    """Class F: the other consumers of the shared recurrence tables (value / sequence / derivative routines of every family, zernike,
+    Qcon, precision 32, numpy-typed orders, in-place-prone paths) run first, unjudged; then every fast path and the fit are judged as usual."""
+    from prysm import polynomials as P
+    rng = case_rng('foreign')
+    PT = paths()
+    u = np.array([0.0, 0.21875, 0.53125, 0.84375, 1.0])
+    for rep, L in enumerate((3, 1, 9, 19, 42)):
+        ctx.event('foreign-traffic-raised', foreign_traffic(P, rep))
+        ctx.observe('classF.foreign-traffic')
+        c0 = [float(v) for v in rng.normal(size=L)]
+        for label, (fast, mode, az) in PT.items():
+            desc = {'fn': fn_of(label), 'path': label, 'len': L, 'class': f'{fn_of(label)}:after-foreign-traffic'}
+            ctx.case(desc)
+            path_check(ctx, label, fast, mode, np.array(c0) if rep % 2 else c0, c0, u, u, desc, lenclass(L))
+        with quiet():
+            modes = np.asarray(basis(rng, ('zernike', 'q2d', 'legendre-xy')[rep % 3], (9, 10)), dtype=float)
+        c = rng.normal(size=modes.shape[0])
+        desc = {'fn': 'lstsq', 'class': 'lstsq:after-foreign-traffic'}
+        ctx.case(desc)
+        with guard('lstsq', desc, 'masked'):
+            data = P.sum_of_2d_modes(modes, c)
+            data[2, 3] = np.nan
+            cref, ok, cond, _, _ = ls_oracle(modes, data)
+            if ok and cond < 1e6:
+                ctx.close('lstsq.recovers-synthesis', P.lstsq(modes, data), c, 'C10/lstsq/recovers-synthesis', 'lstsq != c after foreign traffic', desc, rtol=1e-8 * max(cond, 1.0), atol=1e-300, scale=sup(c))
+
+
 def run_hardening(ctx, counter):
     def mine():
         counter[0] += 1
@@ -1037,9 +1449,13 @@ def run_hardening(ctx, counter):
     for v in HIST_VARIANTS:
         if mine():
             history_units(ctx, v)
-    for fn in (alias_coefs, container_units, layout_units, cfg32_units, kwarg_units, repeat_lstsq):
+    for fn in (alias_coefs, container_units, layout_units, cfg32_units, kwarg_units, repeat_lstsq, alias_modes, form_units, param_form_units, foreign_units):
         if mine():
             fn(ctx)
+            check_kept()
+    for L in ctx.pick((172, 173, 257, 401), (172, 173, 201, 257, 401, 513)):
+        if mine():
+            very_long_units(ctx, L)
             check_kept()
     for lens in ctx.pick([(19,), (41,), (60,)], [(19, 41), (60, 80), (100,), (150,)]):
         if mine():
